@@ -470,10 +470,10 @@ fn publish_oracle_on(rep: &mut CaseReport, per: &BTreeMap<u16, Vec<(usize, usize
                 rep.violate("publish-method", which, format!("channel {} publish {}: wire has {:?}, call had exchange={:?} rk={:?} mandatory={} immediate={}", ch, o.mark, p, trunc(exchange, 60), trunc(rk, 60), mandatory, immediate));
                 return;
             }
-            // header must be the very next frame on this channel.  One interruption is a recorded finding
-            // (known_findings.json): the I/O thread's own Basic.CancelOk, answering a server cancel, is
-            // written between the frames a publish hands over one by one; it is reported under its own
-            // signature and skipped, so that everything else about the publish is still checked
+            // header must be the very next frame on this channel.  One interruption was a genuine defect
+            // (known_findings.json, fixed in /repo c8b9dfd): the I/O thread's own Basic.CancelOk, answering a
+            // server cancel, written between the frames a publish hands over one by one; it keeps its own
+            // signature and is skipped, so that everything else about the publish is still checked
             let mut hi = i + 1;
             while let Some((_, _, AMQPFrame::Method(_, AMQPClass::Basic(B::CancelOk(c))))) = frames.get(hi) {
                 rep.violate("publish-contiguity", "io-thread-cancel-ok-inside-publish", format!("channel {} publish {}: the client's own Basic.CancelOk({}) (answer to a server cancel) sits between Basic.Publish and its content header", ch, o.mark, c.consumer_tag));
